@@ -1,5 +1,132 @@
-"""Per-property dispatch: which engines decide a property."""
+"""Per-property dispatch: which engines decide a property, and how their
+results are merged into one evidence record."""
+import json, os, time, hashlib
+
+VERIF = os.path.dirname(os.path.dirname(os.path.abspath(__file__)))
+
+
+def engine_m(prop, tier):
+    """-> (obligations, meta) from mirsym for this property (may be empty)."""
+    import sys
+    sys.path.insert(0, VERIF)
+    from mirsym.mir import dump_mir, Program
+    t0 = time.time()
+    path, key = dump_mir()
+    prog = Program(path)
+    obs, models, extra = [], [], {}
+    if prop == "C08":
+        from mirsym import c08
+        extra["translator_validation"] = c08.validate_translator(prog)
+        obs = c08.check(prog)
+        for o in obs:
+            models += o.get("models_used", [])
+    elif prop == "C15":
+        from mirsym import c15
+        obs, models = c15.check(prog, tier)
+        from mirsym import c15d
+        dobs, dmodels = c15d.check(prog)
+        obs += dobs
+        models += dmodels
+    elif prop == "C03":
+        from mirsym import nearest
+        obs, models = nearest.check(prog, tier)
+    elif prop == "C12":
+        from mirsym import setter
+        obs, models = setter.check(prog, tier)
+    elif prop == "C14":
+        from mirsym import sincs
+        obs, models = sincs.check(prog, tier)
+    meta = dict(mir_dump=os.path.basename(path), mir_source_key=key, bodies_in_dump=len(prog.bodies),
+                models_used=sorted(set(models)), wall_s=round(time.time() - t0, 2))
+    meta.update(extra)
+    return obs, meta
+
+
+M_PROPS = {"C08", "C15"}          # extended as the other mirsym checks land
+M_ONLY = {"C15"}
 
 
 def dispatch(prop, tier, only, use_cache, engine_k):
-    return engine_k(prop, tier, only, use_cache)
+    from rvlib.registry import HARNESSES
+    t0 = time.time()
+    has_k = any(prop in m["props"] for m in HARNESSES.values()) and prop not in M_ONLY
+    ev, violations, machinery = None, [], []
+    if has_k:
+        ev, violations, machinery = engine_k(prop, tier, only, use_cache)
+    if prop in M_PROPS and not only:
+        try:
+            obs, meta = engine_m(prop, tier)
+        except Exception as e:  # machinery problem, never a pass
+            import traceback
+            machinery.append("engine M failed: %s" % traceback.format_exc()[-1500:])
+            obs, meta = [], dict(error=repr(e))
+        n = len(obs)
+        ok = sum(1 for o in obs if o["verdict"] == "holds")
+        bad = [o for o in obs if o["verdict"] == "violated"]
+        inc = [o for o in obs if o["verdict"] == "inconclusive"]
+        for o in inc[:5]:
+            machinery.append("engine M inconclusive: %s %s" % (o["id"], str(o.get("detail", ""))[:300]))
+        os.makedirs(os.path.join(VERIF, "replays"), exist_ok=True)
+        for o in bad:
+            hid = hashlib.sha256(json.dumps(o, sort_keys=True, default=str).encode()).hexdigest()[:10]
+            path = os.path.join(VERIF, "replays", "%s-mirsym-%s.json" % (prop, hid))
+            json.dump(dict(property=prop, engine="mirsym", obligation=o), open(path, "w"), indent=1, default=str)
+            conf = m_replay(prop, o)
+            o["native_replay"] = conf
+            if conf.get("confirmed"):
+                violations.append((dict(tag=o["id"], region="base", harness="mirsym", how=conf.get("how", "")), path))
+                print("VIOLATION property=%s replay=%s  (%s: %s)" % (prop, path, o["id"], conf.get("how", "")), flush=True)
+            else:
+                machinery.append("engine M counterexample for %s did not reproduce natively: %s" % (o["id"], conf.get("how", "")))
+        mcov = dict(m_obligations=n, m_discharged=ok, m_violated=len(bad), m_inconclusive=len(inc),
+                    m_solver_time_s=round(sum(o.get("solver_s", 0) for o in obs), 3),
+                    m_functions_encoded=sorted(set(f for o in obs for f in (o.get("functions") or ([o["function"]] if o.get("function") else [])))),
+                    m_meta=meta,
+                    m_samples=[{k: v for k, v in o.items() if k in ("id", "cfg", "function", "functions", "z3", "cvc5", "verdict", "cvc5_basis", "linearity")}
+                               for o in obs[:8]])
+        if ev is None:
+            ev = dict(property_id=prop, tier=tier, seed=int(os.environ.get("VERIF_SEED", "0") or 0), level="other",
+                      coverage=dict(
+                          explanation="SMT-decided identities over symbolic execution of rustc MIR regenerated from /repo (mirsym): "
+                                      "each obligation is the negated property asserted over symbolic inputs; unsat from z3 and cvc5 = holds for all values of the stated sort; "
+                                      "concrete control parameters (lengths, indices) are enumerated and listed",
+                          obligations=n, discharged=ok, evaluations=n, distinct_nontrivial=ok,
+                          checker_cmd="z3 5.1 (python API) + cvc5 1.0 (--lang smt2) on SMT-LIB2 exported from the same terms",
+                          trusted_base=["rustc nightly MIR dump (-Zmir-opt-level=0)", "mirsym parser/interpreter", "callee and intrinsic models listed in m_meta.models_used",
+                                        "z3, cvc5", "real-number reading of generic T (assumption A-round bridges to floats)"],
+                          samples=mcov["m_samples"]),
+                      assumptions=["T := Real: float rounding is not modelled in these identities (A-round)",
+                                   "models of std/core::arch callees as listed"],
+                      wall_s=0, violations=0)
+        ev["coverage"].update(mcov)
+        if has_k:
+            ev["coverage"]["obligations"] = ev["coverage"].get("obligations", 0) + n
+            ev["coverage"]["discharged"] = ev["coverage"].get("discharged", 0) + ok
+            ev["coverage"]["evaluations"] = ev["coverage"].get("evaluations", 0) + n
+    ev["wall_s"] = round(time.time() - t0, 1)
+    ev["violations"] = len(violations)
+    return ev, violations, machinery
+
+
+def m_replay(prop, o):
+    """Replay an Engine-M counterexample against the native build."""
+    from rvlib import kani as K
+    import subprocess
+    try:
+        exe = K.build_replay("release")
+    except Exception as e:
+        return dict(confirmed=False, how="replay build failed: %r" % e)
+    if prop == "C08":
+        label = o["id"].split("C08.table.")[-1]
+        r = subprocess.run([exe, "--m-c08", label], capture_output=True, text=True, timeout=120)
+        bad = "MISMATCH" in r.stdout
+        return dict(confirmed=bad, how=r.stdout.strip()[-300:])
+    if prop == "C15":
+        cfg = o.get("cfg", {})
+        kern = o["id"].split(".")[-2] + "." + o["id"].split(".")[-1] if o["id"].count(".") >= 3 else o["id"].split(".")[-1]
+        r = subprocess.run([exe, "--m-c15", o["id"], str(cfg.get("len", 8)), str(cfg.get("nbr_sincs", 1)),
+                            str(cfg.get("index", 0)), str(cfg.get("subindex", 0)), str(cfg.get("wave_len", 16))],
+                           capture_output=True, text=True, timeout=120)
+        bad = "MISMATCH" in r.stdout or r.returncode < 0
+        return dict(confirmed=bad, how=(r.stdout.strip()[-300:] or "signal %d" % -r.returncode))
+    return dict(confirmed=False, how="no native replay for this obligation")
